@@ -102,6 +102,10 @@ def build_forecast(world, conf, cats, path, ncat_given=True):
     from csep.core.catalogs import CSEPCatalog
     from csep.core.forecasts import CatalogForecast
     region = world.make_region()
+    if conf.get('magdtype'):
+        # the magnitude bin edges arrive in single precision (4.0 and 5.0 are exact in it): the rates are the same numbers
+        from csep.core import regions as _regions
+        region = _regions.create_space_magnitude_region(region, world.mags.astype(conf['magdtype']))
     kw = {}
     if conf['filt']:
         # three realisations of "the configured attribute filters": a statement, the time-dependent completeness
@@ -353,6 +357,7 @@ def run(chk, replay=None):
         conf['ncat_given'] = not (conf['src'] == 'list' and rng.random() < 0.25)
         conf['real'] = rng.choice(['stmt', 'mct', 'both'])
         conf['carry'] = rng.choice([None, 'ctor', 'copy', 'region'])
+        conf['magdtype'] = rng.choice([None, None, 'float32'])
         tr = run_history(world, conf, cats, case['hist'], path, rec, seed=ci)
         chk.count()
         if 'aborted' in tr:
@@ -369,6 +374,7 @@ def run(chk, replay=None):
         conf['ncat_given'] = not (conf['src'] == 'list' and rng.random() < 0.25)
         conf['real'] = ['stmt', 'mct', 'both'][t % 3]
         conf['carry'] = [None, 'ctor', 'copy', 'region'][t % 4]
+        conf['magdtype'] = [None, 'float32', None][t % 3]
         hist = [rng.choice(['iter', 'counts', 'ncat', 'rates', 'scounts', 'mcounts', 'eval']) for _ in range(rng.randint(5, 12))]
         tr = run_history(world, conf, cats, hist, path, rec, seed=t)
         chk.count()
